@@ -1312,6 +1312,12 @@ def eval_const_expr(ctx, f, s):
         cand = f.name + '::promoted[%s]' % m.group(2)
         c = prog.consts.get(cand)
         if c is None:
+            segs = base.split('::')
+            for k in range(1, len(segs)):
+                c = prog.consts.get('::'.join(segs[k:]) + '::promoted[%s]' % m.group(2))
+                if c is not None:
+                    break
+        if c is None:
             tgt = resolve(prog, base)
             if tgt[0] == 'mir':
                 c = prog.consts.get(tgt[1].name + '::promoted[%s]' % m.group(2))
@@ -1329,7 +1335,7 @@ def eval_const_expr(ctx, f, s):
         raise Unsupported('static alloc? ' + s)
     if s in prog.consts:
         return exec_func(ctx, prog.consts[s], [])
-    m = re.fullmatch(r'(?:core::num::|std::)?([iu](?:8|16|32|64|128|size))::(MIN|MAX|BITS)', s)
+    m = re.fullmatch(r'(?:core::num::|std::)?(?:<impl )?([iu](?:8|16|32|64|128|size))>?::(MIN|MAX|BITS)', s)
     if m:
         bits, signed = ty_bits(m.group(1))
         if m.group(2) == 'BITS':
@@ -1340,6 +1346,14 @@ def eval_const_expr(ctx, f, s):
     st = strip_generics(s)
     if st in prog.consts:
         return exec_func(ctx, prog.consts[st], [])
+    if st in ('Option::None', 'std::option::Option::None', 'core::option::Option::None'):
+        return NONE
+    # a const declared inside a function: defined under a trimmed path, referenced by a longer one
+    segs = st.split('::')
+    for k in range(1, len(segs) - 1):
+        cand = '::'.join(segs[k:])
+        if cand in prog.consts:
+            return exec_func(ctx, prog.consts[cand], [])
     # unit-like enum variant / function item used as a const
     m = re.fullmatch(r'(.+)::(\w+)', st)
     if m:
